@@ -1,47 +1,125 @@
 """C28 - inlining preserves program behaviour."""
 import json
+import os
+import re
+import signal
+import subprocess
+from contextlib import contextmanager
 
 from ..fprog import gen_inline as GI
 from ..fprog import harness
 
 ID = 'C28'
 LEVEL = 'exploration'
-TECHNIQUE = ('differential execution (gfortran) of generated caller/callee programs vs the same programs after '
-             'loki inlining (7 entry points), with a feature-ablation reducer that names the necessary generated feature')
-RULE = ('a case is a spec (entry point, options, ~50 feature flags, sizes, choice streams) expanded from one Hypothesis-drawn '
-        'integer; build(spec) deterministically generates modules cmod (PARAMETERs), hmod (callee subroutines/functions: array and '
-        'scalar dummies, explicit/lower-bound/assumed-shape/dummy-sized arrays, OPTIONAL, locals clashing with caller locals, dummies '
-        'named like caller locals, conditional RETURN, nested marked calls) and kmod::kernel (call sites with whole-array / section / '
-        'strided / open / 2-D slice / element / expression / keyword / absent-optional actuals, function references inside '
-        'expressions, conditions, loop bounds, call arguments, nested, elemental on arrays, statement functions, module and local '
-        'PARAMETERs, internal procedures using host variables) that is UB-free by construction; the entry point is applied as in '
-        'loki\'s tests, the file is regenerated with to_fortran and both programs run on 4 input vectors with the same driver. '
-        'non-trivial = the IR dump changed AND an unconditional (top level or inside a DO with >=1 trip) site of a kind the entry '
-        'point rewrites exists AND the outputs differ across the input vectors; distinct by hash of the spec. A failing spec is '
-        'reduced by switching feature flags / options off one at a time (kept off while the same failure class persists); the '
-        'signature names entry point, failure class and the flags that are necessary.')
+TECHNIQUE = ('differential execution (gfortran) of generated caller/callee programs vs the same programs after loki '
+             'inlining: 8 entry-point variants per program share one compiled original and one executable; known root '
+             'causes are excluded by construction and recognised from the IR of the failing input')
+RULE = ('a program is a spec (~55 feature flags, sizes, choice streams) expanded from one Hypothesis-drawn integer; '
+        'build(spec) deterministically generates modules cmod (PARAMETERs), hmod (callee subroutines/functions: array and '
+        'scalar dummies, explicit/lower-bound/assumed-shape/dummy-sized arrays, OPTIONAL, locals clashing with caller locals, '
+        'dummies named like caller locals, nested marked calls) and kmod::kernel with one unconditional top-level site of every '
+        'kind (marked call, internal-subroutine call, function reference, elemental-function reference, statement function, '
+        'PARAMETER use) plus 0-3 further sites in loops / IF blocks (whole-array / section / strided / open / 2-D slice / element / '
+        'expression / keyword / absent-optional actuals, function references inside expressions, conditions, loop bounds, call '
+        'arguments, nested, elemental on arrays), UB-free by construction. To every program the variants internal, marked, '
+        'stmtfunc, elemental, functions, constants, InlineTransformation(drawn options) and InlineTransformation() are applied '
+        '(fresh parse each, as loki\'s tests do), regenerated with to_fortran and run on 4 input vectors next to the original. '
+        'One evaluation = one (program, variant). non-trivial = the IR dump changed AND an unconditional (top level or inside '
+        'a DO with >=1 trip) site of a kind the variant rewrites exists AND the outputs differ across the input vectors; '
+        'distinct by hash of (spec, entry point, options).')
 ASSUMPTIONS = ['gfortran 12 -O0 with -fcheck=bounds,do -ftrapv -ffpe-trap is the reference semantics',
                'programs whose ORIGINAL traps at run time are excluded as undefined behaviour',
-               'the driver program never passes through loki',
+               'the driver never passes through loki; in the shared executable the kernels are called through an implicit '
+               'interface (explicit-shape and scalar dummies only); every disagreement is re-checked with a regular '
+               'stand-alone build (explicit interface) before it is reported',
                'argument association in generated calls stays inside the standard: written actuals are distinct variables, '
                'intent(in) actuals do not mention written or host-written variables',
-               'recursion and sequence association (element actual for array dummy) are not generated (documented as unsupported)']
+               'recursion, sequence association (element actual for array dummy) and internal FUNCTIONS under '
+               'inline_internal_procedures (documented as unsupported) are outside the domain',
+               'loki raising an exception (or not finishing within 30 s) on a generated input is counted as rejected, not as a violation']
 SHARDS = {'quick': 8, 'thorough': 16}
 BUDGET = {'quick': 80, 'thorough': 1500}
 
-# (entry points | None, flags that must all be on, flag switched off, reason) - triggers of LISTED known findings only
-EXCLUDE_RULES = [
-]
-
 TRAFO_KEYS = ('inline_constants', 'inline_elementals', 'inline_stmt_funcs', 'inline_internals', 'inline_marked',
               'remove_dead_code', 'adjust_imports', 'external_only')
-# options that matter per entry point, and the baseline value the reducer tries to restore (a signature only
-# names options that are necessarily away from the baseline)
-OPT_BASELINE = {'adjust_imports': True, 'external_only': True, 'member_alias': False, 'inline_constants': False,
-                'inline_elementals': False, 'inline_stmt_funcs': False, 'inline_internals': False, 'inline_marked': False,
-                'remove_dead_code': False}
-EP_OPTS = {'marked': ('adjust_imports',), 'constants': ('external_only',), 'internal': ('member_alias',), 'trafo': TRAFO_KEYS}
-KIND_TO_APP = {'msub': 'marked', 'isub': 'internal', 'ifun': 'internal', 'fun': 'functions', 'sf': 'stmtfunc', 'const': 'constants'}
+TRAFO_DEFAULT = {'inline_constants': False, 'inline_elementals': True, 'inline_stmt_funcs': False, 'inline_internals': False,
+                 'inline_marked': True, 'remove_dead_code': True, 'adjust_imports': True, 'external_only': True}
+KIND_TO_APP = {'msub': ('marked',), 'isub': ('internal',), 'ifun': ('internal',), 'fun': ('functions',),
+               'efun': ('functions', 'elemental'), 'sf': ('stmtfunc',), 'const': ('constants',)}
+LOKI_TIME_LIMIT = 30
+
+# ---- listed known findings: trigger switched off in the generator ---------------------------------------------
+# (flag forced off for every program, reason counted with ctx.exclude when the drawn spec had it on)
+EXCLUDE_FLAGS = [
+    ('callee_return', 'known:callee-return (RETURN of an inlined subroutine is copied into the caller)'),
+    ('fn_in_if1', 'known:one-line-if (function inlined into the statement of a one-line IF)'),
+    ('site_if1_call', 'known:one-line-if (subroutine inlined into the statement of a one-line IF)'),
+    ('clash_actual', 'known:actual-mentions-dummy-name (actual argument mentions a caller variable named like a callee dummy)'),
+    ('const_elseif', 'known:dead-code-elseif (remove_dead_code on ELSE IF with constant condition)'),
+]
+
+
+def inlines_subs(ep, o):
+    return ep in ('internal', 'marked') or (ep == 'trafo' and (o.get('inline_marked') or o.get('inline_internals')))
+
+
+# (name, predicate(ep, opts, features) -> variant must be skipped, reason)
+SKIP_VARIANT = [
+    ('absent-optional', lambda ep, o, ft: 'opt_absent' in ft and inlines_subs(ep, o) and not (ep == 'trafo' and o.get('remove_dead_code')),
+     'known:absent-optional (omitted OPTIONAL dummy stays referenced in the inlined dead branch)'),
+    ('array-dummy-case', lambda ep, o, ft: 'mixed_case' in ft and inlines_subs(ep, o),
+     'known:array-dummy-case (array dummy spelled in another letter case than its declaration)'),
+]
+# documented preconditions (outside the domain, counted as class only)
+OUTSIDE_DOMAIN = [
+    ('internal-function', lambda ep, o, ft: 'int_fun' in ft and (ep == 'internal' or (ep == 'trafo' and o.get('inline_internals')))),
+]
+
+
+def variants_for(spec):
+    o = spec.get('opts', {})
+    tr = {k: bool(o.get(k)) for k in TRAFO_KEYS}
+    out = [('internal', {}), ('marked', {'adjust_imports': bool(o.get('adjust_imports'))}), ('stmtfunc', {}), ('elemental', {}),
+           ('functions', {}), ('constants', {'external_only': bool(o.get('external_only'))}), ('trafo', tr)]
+    if tr != TRAFO_DEFAULT:
+        out.append(('trafo', dict(TRAFO_DEFAULT)))
+    return out
+
+
+def what_applies(ep, o):
+    if ep == 'trafo':
+        return {'marked': bool(o.get('inline_marked')), 'internal': bool(o.get('inline_internals')),
+                'stmtfunc': bool(o.get('inline_stmt_funcs')), 'elemental': bool(o.get('inline_elementals')),
+                'functions': False, 'constants': bool(o.get('inline_constants'))}
+    return {k: ep == k for k in ('marked', 'internal', 'stmtfunc', 'elemental', 'functions', 'constants')}
+
+
+def executes(ep, o, sites):
+    app = what_applies(ep, o)
+    for s in sites:
+        if s.get('form') in (None, 'earr') or s.get('where') not in ('top', 'loop'):
+            continue
+        if any(app.get(a) for a in KIND_TO_APP.get(s.get('kind'), ())):
+            return True
+    return False
+
+
+# ---- loki ------------------------------------------------------------------------------------------------------
+class LokiTimeout(Exception):
+    pass
+
+
+@contextmanager
+def time_limit(seconds):
+    def handler(signum, frame):
+        raise LokiTimeout(f'loki did not finish within {seconds} s')
+    old = signal.signal(signal.SIGALRM, handler)
+    signal.setitimer(signal.ITIMER_REAL, seconds)
+    try:
+        yield
+    finally:
+        signal.setitimer(signal.ITIMER_REAL, 0)
+        signal.signal(signal.SIGALRM, old)
 
 
 def quiet():
@@ -49,24 +127,35 @@ def quiet():
     q()
 
 
-def apply_ep(spec, rendered, meta):
-    """parse, apply the entry point of the spec as loki's tests do, regenerate; returns (files, ir_changed)"""
+def parse(text):
     quiet()
-    text = rendered[0]['text']
     from loki import Sourcefile
     from loki.frontend import FP
-    from loki.transformations import inline as li
+    return Sourcefile.from_source(text, frontend=FP)
+
+
+def dump(sf):
     from .. import irdump
-    sf = Sourcefile.from_source(text, frontend=FP)
+    return json.dumps(irdump.dump_sourcefile(sf), sort_keys=True, default=str)
+
+
+def callee_list(sf, order=None):
+    mods = {m.name.lower(): m for m in sf.modules}
+    hmod = mods.get('hmod')
+    if hmod is None:
+        return []
+    if order:
+        return [hmod[n] for n in order]
+    return list(hmod.subroutines)
+
+
+def apply_variant(sf, ep, o, order=None):
+    """apply one entry point to a freshly parsed file exactly as loki's tests do (in place)"""
+    from loki.transformations import inline as li
     kernel = sf['kmod']['kernel']
-    hmod = sf['hmod']
-    before = json.dumps(irdump.dump_sourcefile(sf), sort_keys=True, default=str)
-    ep, o = spec['ep'], spec.get('opts', {})
-    callees = [hmod[n] for n in meta['hmod_order']]
+    callees = callee_list(sf, order)
     if ep == 'internal':
-        fn = li.inline_member_procedures if o.get('member_alias') and hasattr(li, 'inline_member_procedures') \
-            else li.inline_internal_procedures
-        fn(kernel)
+        li.inline_internal_procedures(kernel)
     elif ep == 'marked':
         for r in callees:
             if not r.is_function:
@@ -84,40 +173,493 @@ def apply_ep(spec, rendered, meta):
     elif ep == 'constants':
         li.inline_constant_parameters(kernel, external_only=bool(o.get('external_only')))
     elif ep == 'trafo':
-        kw = {k: bool(o.get(k)) for k in TRAFO_KEYS}
-        trafo = li.InlineTransformation(**kw)
+        trafo = li.InlineTransformation(**{k: bool(o.get(k)) for k in TRAFO_KEYS})
         for r in callees:
             trafo.apply(r)
         trafo.apply(kernel)
     else:
         raise ValueError(ep)
-    after = json.dumps(irdump.dump_sourcefile(sf), sort_keys=True, default=str)
-    return [(rendered[0]['name'], sf.to_fortran() + '\n')], before != after
 
 
-def site_affected(spec, site):
-    app = GI.what_applies(spec)
-    k = site.get('kind')
-    if site.get('form') is None:
-        return False
-    if k == 'fun':
-        if site.get('form') == 'earr':
+def transform(text, ep, o, order=None, before=None):
+    """-> (candidate text, ir_changed); raises what loki raises"""
+    with time_limit(LOKI_TIME_LIMIT):
+        sf = parse(text)
+        if before is None:
+            before = dump(sf)
+        apply_variant(sf, ep, o, order)
+        return sf.to_fortran() + '\n', dump(sf) != before
+
+
+# ---- root causes of listed findings, recognised from the IR of the ORIGINAL (consulted in this order) ------------
+def root_cause(text, ep, o):
+    """slug of the first listed root cause whose trigger is present in the original program for this variant, else None"""
+    from loki import ir
+    from loki.ir import FindNodes, FindVariables, FindInlineCalls
+    from loki.expression import symbols as sym
+    try:
+        sf = parse(text)
+        kernel = sf['kmod']['kernel']
+    except Exception:  # noqa
+        return None
+    callees = callee_list(sf)
+    app = what_applies(ep, o)
+    members = list(kernel.members)
+    inl_subs, inl_funs = [], []
+    if app['marked']:
+        inl_subs += [r for r in callees if not r.is_function]
+    if app['internal']:
+        inl_subs += [r for r in members if not r.is_function]
+        inl_funs += [r for r in members if r.is_function]
+    if app['functions']:
+        inl_funs += [r for r in callees if r.is_function]
+    if app['elemental']:
+        inl_funs += [r for r in callees if r.is_function and 'elemental' in [str(p).lower() for p in (r.prefix or ())]]
+    subs = {r.name.lower(): r for r in inl_subs}
+    funs = {r.name.lower(): r for r in inl_funs}
+    hosts = [kernel] + [r for r in callees if not r.is_function]
+    dead = ep == 'trafo' and bool(o.get('remove_dead_code'))
+
+    def dummies(r):
+        return [str(a).lower() for a in r._dummies]
+
+    def inner_names(e):
+        """names of the variables mentioned INSIDE an actual argument (not the top-level symbol of a plain name)"""
+        vs = {v.name.lower() for v in FindVariables(unique=False).visit(e)}
+        if isinstance(e, (sym.Scalar, sym.Array, sym.DeferredTypeSymbol)):
+            below = set()
+            for d in (getattr(e, 'dimensions', None) or ()):
+                below |= {v.name.lower() for v in FindVariables(unique=False).visit(d)}
+            return below
+        return vs
+
+    calls = []     # (callee routine, [actual expressions], number of actuals)
+    for h in hosts:
+        for c in FindNodes(ir.CallStatement).visit(h.body):
+            r = subs.get(str(c.name).lower())
+            if r is not None:
+                calls.append((r, list(c.arguments) + [v for _, v in c.kwarguments], c))
+        for c in FindInlineCalls().visit(h.body):
+            r = funs.get(str(c.function).lower())
+            if r is not None:
+                calls.append((r, list(c.parameters) + list(c.kw_parameters.values()), c))
+    # 1. actual argument mentions a caller variable that is named like a dummy of the callee
+    for r, actuals, _ in calls:
+        dn = set(dummies(r))
+        if any(inner_names(a) & dn for a in actuals):
+            return 'actual-mentions-dummy-name'
+    # 2. RETURN in an inlined subroutine
+    for r in inl_subs:
+        if any(str(n.text).strip().lower() == 'return' for n in FindNodes(ir.Intrinsic).visit(r.body)):
+            return 'callee-return'
+    # 3. array dummy spelled differently from its declaration
+    for r in inl_subs + inl_funs:
+        declared = {a.name for a in r.arguments if isinstance(a, sym.Array)}
+        low = {n.lower() for n in declared}
+        if any(v.name.lower() in low and v.name not in declared for v in FindVariables(unique=False).visit(r.body)):
+            return 'array-dummy-case'
+    # 4. omitted OPTIONAL argument (dead branch is kept unless remove_dead_code)
+    if not dead:
+        for r, actuals, c in calls:
+            if isinstance(c, ir.CallStatement):
+                nopt = sum(1 for a in r.arguments if getattr(a.type, 'optional', False))
+                if nopt and len(actuals) < len(r.arguments):
+                    return 'absent-optional'
+    # 5. call / function reference in the statement of a one-line IF
+    for h in hosts:
+        for cond in FindNodes(ir.Conditional).visit(h.body):
+            if not cond.inline:
+                continue
+            if any(str(c.name).lower() in subs for c in FindNodes(ir.CallStatement).visit(cond.body)) or \
+                    any(str(c.function).lower() in funs for c in FindInlineCalls().visit(cond.body)):
+                return 'one-line-if'
+    # 6. dead-code removal of an ELSE IF with constant condition
+    if dead:
+        for h in hosts:
+            for cond in FindNodes(ir.Conditional).visit(h.body):
+                if cond.has_elseif and not FindVariables().visit(cond.else_body[0].condition):
+                    return 'dead-code-elseif'
+    return None
+
+
+def signature(text, ep, o, klass):
+    rc = root_cause(text, ep, o)
+    if rc:
+        return f'{ID}:{rc}'
+    return f'{ID}:{ep}:{klass}'
+
+
+# ---- one executable for the original and all candidates ----------------------------------------------------------
+def rename_modules(text, i):
+    return re.sub(r'\b(cmod|hmod|kmod)\b', lambda m: f'{m.group(0)}_v{i}', text, flags=re.I)
+
+
+def drive_sub(driver):
+    """make_driver's PROGRAM as SUBROUTINE drive(kernel) with the kernel as (implicit-interface) dummy procedure"""
+    lines = driver.split('\n')
+    out = []
+    for ln in lines:
+        s = ln.strip().lower()
+        if s.startswith('program '):
+            out.append('subroutine drive(kernel)')
+        elif s.startswith('use kmod'):
+            continue
+        elif s == 'implicit none':
+            out += [ln, '  external :: kernel']
+        elif s.startswith('end program'):
+            out.append('end subroutine drive')
+        else:
+            out.append(ln)
+    text = '\n'.join(out)
+    if 'subroutine drive(kernel)' not in text or 'external :: kernel' not in text or 'end subroutine drive' not in text:
+        raise harness.GeneratorBug('unexpected driver shape:\n' + driver[:400])
+    return text
+
+
+def main_program(idxs):
+    L = ['program main', '  use kmod, only: k0 => kernel']
+    L += [f'  use kmod_v{i}, only: k{i} => kernel' for i in idxs]
+    L += ['  implicit none', '  external :: drive', '  character(len=16) :: arg', '  integer :: w',
+          '  call get_command_argument(1, arg)', '  read (arg, *) w']
+    for i in [0] + list(idxs):
+        L += [f'  if (w == {i} .or. w < 0) then', f"    print '(A)', '@@variant {i}'", f'    call drive(k{i})', '  end if']
+    L += ['end program main', '']
+    return '\n'.join(L)
+
+
+class Res:
+    def __init__(self, stage, rc=0, out='', err=''):
+        self.stage, self.rc, self.out, self.err = stage, rc, out, err
+
+    @property
+    def ok(self):
+        return self.stage == 'run' and self.rc == 0
+
+
+class Shared:
+    """the original and K candidates compiled into one executable; results per index (0 = original)"""
+    RUN_TIMEOUT = 6
+    PAR = 3
+
+    def __init__(self, text, driver):
+        from ..fprog.native import FFLAGS
+        self.fl = ' '.join(FFLAGS)
+        self.dir = harness.native().workdir('c28s')
+        self._w('kmod.f90', text)
+        self._w('drive.f90', drive_sub(driver))
+        self.p = subprocess.Popen(['sh', '-c', f'gfortran {self.fl} -c kmod.f90 drive.f90 2> cerr_0 && touch ok_0'], cwd=self.dir)
+        self.idxs = []
+
+    def _w(self, name, text):
+        with open(os.path.join(self.dir, name), 'w') as f:
+            f.write(text)
+
+    def _r(self, name):
+        try:
+            with open(os.path.join(self.dir, name), errors='replace') as f:
+                return f.read()
+        except OSError:
+            return ''
+
+    def add(self, i, cand_text):
+        self._w(f'cand_{i}.f90', rename_modules(cand_text, i))
+        self.idxs.append(i)
+
+    def _sh(self, script, timeout=600):
+        try:
+            subprocess.run(['sh', '-c', script], cwd=self.dir, timeout=timeout)
+        except subprocess.TimeoutExpired:
+            pass
+
+    def _run(self, w, n):
+        try:
+            p = subprocess.run(['./prog.x', str(w)], cwd=self.dir, capture_output=True, text=True, errors='replace',
+                               timeout=self.RUN_TIMEOUT * n)
+            return p.returncode, p.stdout, p.stderr
+        except subprocess.TimeoutExpired:
+            return None, '', 'run timeout'
+
+    def results(self):
+        """{index: Res}; stage 'compile' (candidate does not compile), 'run' or 'run-timeout'"""
+        if self.idxs:
+            lst = '\\n'.join(str(i) for i in self.idxs)
+            self._sh(f"printf '{lst}\\n' | xargs -P {self.PAR} -I@ sh -c "
+                     f"'gfortran {self.fl} -c cand_@.f90 2> cerr_@ && touch ok_@'")
+        try:
+            self.p.wait(timeout=600)
+        except subprocess.TimeoutExpired:
+            self.p.kill()
+        ex = lambda n: os.path.exists(os.path.join(self.dir, n))  # noqa
+        if not ex('ok_0'):
+            return {0: Res('compile', 1, '', self._r('cerr_0'))}
+        out = {}
+        good = []
+        for i in self.idxs:
+            if ex(f'ok_{i}'):
+                good.append(i)
+            else:
+                out[i] = Res('compile', 1, '', self._r(f'cerr_{i}'))
+        self._w('main.f90', main_program(good))
+        objs = ' '.join(['kmod.o', 'drive.o'] + [f'cand_{i}.o' for i in good])
+        self._sh(f'gfortran {self.fl} -o prog.x main.f90 {objs} 2> lerr')
+        if not ex('prog.x'):
+            raise harness.GeneratorBug('shared executable does not link:\n' + self._r('lerr')[-1500:])
+        rc, so, se = self._run(-1, len(good) + 1)
+        parts = {}
+        if rc == 0:
+            cur = None
+            for ln in so.split('\n'):
+                if ln.startswith('@@variant '):
+                    cur = int(ln.split()[1])
+                    parts[cur] = []
+                elif cur is not None:
+                    parts[cur].append(ln)
+        for i in [0] + good:
+            if rc == 0 and i in parts:
+                out[i] = Res('run', 0, '\n'.join(parts[i]), '')
+            else:
+                r1, o1, e1 = self._run(i, 1)
+                if r1 is None:
+                    out[i] = Res('run-timeout', -1, '', 'run timeout')
+                else:
+                    o1 = '\n'.join(ln for ln in o1.split('\n') if not ln.startswith('@@variant '))
+                    out[i] = Res('run', r1, o1, e1)
+        return out
+
+    def close(self):
+        import shutil
+        try:
+            if self.p.poll() is None:
+                self.p.kill()
+        except Exception:  # noqa
+            pass
+        shutil.rmtree(self.dir, ignore_errors=True)
+
+
+def classify(orig_out, res):
+    """None if the candidate result equals the original's, else failure class"""
+    if res.stage.startswith('compile'):
+        return 'candidate-does-not-compile'
+    if not res.ok:
+        return 'candidate-runtime-error'
+    if res.out != orig_out:
+        return 'output-differs'
+    return None
+
+
+def confirm(files_name, text, cand_text, driver, state):
+    """regular stand-alone builds (explicit interface); -> None | (class, detail) | ('ub', detail)"""
+    from ..fprog.native import first_diff
+    if 'orig' not in state:
+        orig = harness.native().build_run('orig', [(files_name, text)], driver, timeout=Shared.RUN_TIMEOUT)
+        orig.source = ([(files_name, text)], driver, None)
+        state['orig'] = orig
+    orig = state['orig']
+    if orig.stage.startswith('compile'):
+        raise harness.GeneratorBug('original program does not compile:\n' + orig.err[-1500:] + '\n---\n' + text)
+    if not orig.ok:
+        return 'ub', orig.brief()
+    cand = harness.native().build_run('cand', [(files_name, cand_text)], driver, timeout=Shared.RUN_TIMEOUT)
+    if cand.stage.startswith('compile'):
+        return 'candidate-does-not-compile', cand.err[-1200:]
+    if not cand.ok:
+        return 'candidate-runtime-error', cand.brief()
+    if cand.out != orig.out:
+        if 'undef' not in state:
+            state['undef'] = harness.original_reads_undefined(orig)
+        if state['undef']:
+            return 'undef', 'original reads an undefined variable'
+        return 'output-differs', first_diff(orig.out, cand.out)
+    return None
+
+
+# ---- evaluation of one program with a list of variants -----------------------------------------------------------
+def evaluate_program(spec, variants, rules=True):
+    """
+    -> (info, [result per variant]); result = dict(ep, opts, status in ok|fail|reject|skip|outside|ub|undef, ...)
+    """
+    from ..fprog.native import make_driver
+    case = GI.build(spec)
+    rendered = harness.render_case(case)
+    name, text = rendered[0]['name'], rendered[0]['text']
+    driver = make_driver(case)
+    feats = set(case['meta']['features'])
+    sites = case['meta']['sites']
+    order = case['meta']['hmod_order']
+    info = {'case': case, 'text': text, 'features': sorted(feats)}
+    results = []
+    sh = Shared(text, driver)
+    try:
+        before = None
+        by_text = {}
+        for k, (ep, o) in enumerate(variants):
+            r = {'ep': ep, 'opts': o, 'k': k + 1}
+            results.append(r)
+            dom = [n for n, pred in OUTSIDE_DOMAIN if rules and pred(ep, o, feats)]
+            if dom:
+                r.update(status='outside', why=dom[0])
+                continue
+            skip = [why for n, pred, why in SKIP_VARIANT if rules and pred(ep, o, feats)]
+            if skip:
+                r.update(status='skip', why=skip)
+                continue
+            try:
+                if before is None:
+                    with time_limit(LOKI_TIME_LIMIT):
+                        before = dump(parse(text))
+                cand, changed = transform(text, ep, o, order, before)
+            except Exception as e:  # noqa: loki raised on a generated input -> rejected bucket
+                r.update(status='reject', exc=e)
+                continue
+            r.update(cand=cand, changed=changed, executes=executes(ep, o, sites))
+            if cand in by_text:
+                r['same_as'] = by_text[cand]
+            else:
+                by_text[cand] = k + 1
+                sh.add(k + 1, cand)
+        res = sh.results()
+    finally:
+        sh.close()
+    o0 = res[0]
+    if o0.stage.startswith('compile'):
+        raise harness.GeneratorBug('original program does not compile:\n' + o0.err[-1500:] + '\n---\n' + text)
+    state = {}
+    vecs = o0.out.split('vector ')
+    info['varied'] = len(set(v.split('\n', 1)[1] if '\n' in v else v for v in vecs[1:])) > 1
+    for r in results:
+        if 'cand' not in r:
+            continue
+        if not o0.ok:
+            r.update(status='ub')
+            continue
+        rr = res[r.get('same_as', r['k'])]
+        if classify(o0.out, rr) is None:
+            r.update(status='ok')
+            continue
+        bad = confirm(name, text, r['cand'], driver, state)
+        if bad is None:
+            r.update(status='ok', note='shared-executable disagreement not confirmed by the stand-alone build')
+        elif bad[0] in ('ub', 'undef'):
+            r.update(status=bad[0])
+        else:
+            r.update(status='fail', klass=bad[0], detail=bad[1])
+    return info, results
+
+
+def report(ctx, spec, info, results, reduce=True):
+    feats = info['features']
+    for r in results:
+        ep, o = r['ep'], r['opts']
+        vspec = dict(spec, ep=ep, opts=o)
+        case = {'spec': vspec}
+        st = r['status']
+        nontrivial = st in ('ok', 'fail') and bool(r.get('changed') and r.get('executes') and info.get('varied'))
+        tag = ep if ep != 'trafo' else ('trafo-default' if o == TRAFO_DEFAULT else 'trafo')
+        classes = ['ep:' + tag, 'status:' + st]
+        if st in ('ok', 'fail'):
+            classes += ['f:' + f for f in feats]
+            classes += ['ir-changed' if r.get('changed') else 'ir-unchanged']
+            if r.get('executes'):
+                classes.append('changed-site-executes')
+            if ep == 'trafo':
+                classes += [f'opt:{k}' for k in TRAFO_KEYS if o.get(k)]
+        if st == 'outside':
+            ctx.count('outside-domain:' + r['why'])
+            continue
+        if st == 'skip':
+            for why in r['why']:
+                ctx.exclude(why)
+            continue
+        ctx.case(case, nontrivial, classes)
+        if st == 'ub':
+            ctx.exclude('original-traps-at-runtime(UB)')
+        elif st == 'undef':
+            ctx.exclude('original-reads-undefined-variable(UB; generator defect, case discarded)')
+        elif st == 'reject':
+            e = r['exc']
+            ctx.reject('loki-timeout' if isinstance(e, LokiTimeout) else e, case)
+        elif st == 'fail':
+            sig = signature(info['text'], ep, o, r['klass'])
+            small = vspec
+            detail = r['detail']
+            if reduce and sig not in ctx.failures and sig not in ctx.known_sigs and not ctx.out_of_time():
+                small, d2 = reduce_failure(vspec, sig)
+                detail = d2 or detail
+            ctx.fail(sig, {'spec': small}, f'[{ep} {json.dumps(o, sort_keys=True)}] flags on: '
+                     f'{",".join(GI.on_flags(small))}\n{detail}')
+    if len(ctx.samples) < 2:
+        ctx.sample({'features': feats, 'variants': [(r['ep'], r['status']) for r in results], 'source': info['text'][:3500]})
+
+
+def single(vspec):
+    """evaluate one (program, variant); -> (status, sig|None, detail)"""
+    info, results = evaluate_program(vspec, [(vspec['ep'], vspec.get('opts', {}))], rules=False)
+    r = results[0]
+    if r['status'] != 'fail':
+        return r['status'], None, ''
+    return 'fail', signature(info['text'], r['ep'], r['opts'], r['klass']), r['detail']
+
+
+def reduce_failure(vspec, sig):
+    """feature ablation (sizes to minimum, flags off, streams to zero) while the same signature persists"""
+    last = {'detail': None}
+
+    def still(variant):
+        try:
+            st, s2, d = single(variant)
+        except harness.GeneratorBug:
             return False
-        return app['functions'] or app['elemental']
-    return bool(app.get(KIND_TO_APP.get(k, ''), False))
+        if st == 'fail' and s2 == sig:
+            last['detail'] = d
+            return True
+        return False
+    small, _ = GI.reduce_spec(vspec, still, flag_order=GI.FLAGS, size_min=GI.SIZE_MIN, max_evals=24)
+    return small, last['detail']
 
 
-def executes(spec, case):
-    return any(site_affected(spec, s) and s.get('where') in ('top', 'loop') for s in case['meta']['sites'])
+def apply_exclusions(spec, ctx=None):
+    cur = spec
+    for flag, why in EXCLUDE_FLAGS:
+        if cur['flags'].get(flag):
+            cur = GI.with_flag(cur, flag, False)
+            if ctx is not None:
+                ctx.exclude(why)
+    return cur
 
 
-X = GI.XCheck(ID, GI, apply_ep, executes, EP_OPTS, OPT_BASELINE, EXCLUDE_RULES)
-evaluate, reduce_failure, signature = X.evaluate, X.reduce_failure, X.signature   # (used by the probe tools)
+def check_program(seedspec, ctx):
+    if ctx.out_of_time():
+        return
+    spec = apply_exclusions(seedspec, ctx)
+    info, results = evaluate_program(spec, variants_for(spec))
+    report(ctx, spec, info, results)
 
 
 def run_shard(ctx):
-    ctx.given(GI.specs(), X.check_case, ctx.scale(96, 3200), shrink=False)
+    ctx.given(GI.specs(), check_program, ctx.scale(48, 1600), shrink=False)
+
+
+# ---- replay ------------------------------------------------------------------------------------------------------
+def replay_source(case, ctx):
+    """hand-minimised case: {'source': modules (hmod, kmod::kernel[, cmod]), 'driver': program text, 'ep', 'opts'}"""
+    text, driver, ep, o = case['source'], case['driver'], case['ep'], case.get('opts', {})
+    try:
+        cand, _ = transform(text, ep, o)
+    except Exception as e:  # noqa
+        ctx.reject('loki-timeout' if isinstance(e, LokiTimeout) else e, case)
+        return []
+    bad = confirm('kmod.f90', text, cand, driver, {})
+    if bad is None or bad[0] in ('ub', 'undef'):
+        if bad is not None:
+            raise harness.GeneratorBug(f'replay case is not a valid program: {bad}')
+        return []
+    return [(signature(text, ep, o, bad[0]), bad[1])]
 
 
 def replay(case, ctx):
-    return X.replay(case, ctx)
+    if 'source' in case:
+        return replay_source(case, ctx)
+    vspec = case['spec']
+    info, results = evaluate_program(vspec, [(vspec['ep'], vspec.get('opts', {}))], rules=False)
+    report(ctx, vspec, info, results, reduce=False)
+    return [(s, e['detail']) for s, e in ctx.failures.items()]
